@@ -247,6 +247,197 @@ def orders(names, tier, rng):
     return list(dict.fromkeys(pick))
 
 
+# ---------------------------------------------------------------------- matrices mixing rows inside / outside / on the boundary of the support
+GRAD_MODELS = ('hier2', 'hier3', 'hier4', 'order4', 'chain3-uniform', 'smooth3-norm', 'indep2-norm')
+H = 1e-5
+
+
+def oracle_logpdf(zoo_name, names, X):
+    F = oracle_factors(zoo_name, names, X)
+    with np.errstate(all='ignore'):
+        return np.where((F == 0).any(axis=1), -np.inf, np.log(F).sum(axis=1))
+
+
+def oracle_stencil(zoo_name, names, X, h=H):
+    """(central difference of the recomputed sum of conditional log-densities, class of each row: 'inside' = every stencil value finite,
+    'outside' = log-density -inf at the row, 'boundary' = finite at the row but -inf at one of its +-h neighbours)"""
+    n, k = X.shape
+    L0 = oracle_logpdf(zoo_name, names, X)
+    cd = np.zeros((n, k))
+    anyneg = np.isneginf(L0)
+    for j in range(k):
+        e = np.zeros(k)
+        e[j] = h
+        lp, lm = oracle_logpdf(zoo_name, names, X + e), oracle_logpdf(zoo_name, names, X - e)
+        anyneg |= np.isneginf(lp) | np.isneginf(lm)
+        with np.errstate(all='ignore'):
+            cd[:, j] = (lp - lm) / (2 * h)
+    cls = np.where(np.isneginf(L0), 'outside', np.where(anyneg, 'boundary', 'inside'))
+    return cd, cls
+
+
+def mixed_matrix(zoo_name, names, rng):
+    """rows of the model's grid, interleaved so that rows outside / on the boundary sit between rows inside the support whose gradient
+    is not zero (where the model has such rows)"""
+    X = grid_points(zoo_name, names)
+    cd, cls = oracle_stencil(zoo_name, names, X)
+    with np.errstate(all='ignore'):
+        steep = np.array([c == 'inside' and np.abs(g).max() > 1e-3 for c, g in zip(cls, cd)])
+    pick = lambda mask, m: list(rng.permutation(np.flatnonzero(mask))[:m])
+    ins = pick(steep, 4) or pick(cls == 'inside', 4)
+    out, bnd = pick(cls == 'outside', 2), pick(cls == 'boundary', 2)
+    order = []
+    for i in range(max(len(ins), len(out) + len(bnd))):
+        if i < len(out + bnd):
+            order.append((out + bnd)[i])            # the first row of the matrix is a row outside the support when there is one
+        if i < len(ins):
+            order.append(ins[i])
+    return X[order]
+
+
+def check_gradient_matrix(elfi, zoo_name, names, X):
+    """gradient_logpdf of a matrix: every row equals the single-point call on that row (a row does not depend on the rest of the batch),
+    equals the independent central difference where the whole stencil is inside the support, and is 0 where a stencil value is -inf"""
+    from elfi.model.extensions import ModelPrior
+    names, X = list(names), np.asarray(X, dtype=float)
+    k = len(names)
+    inp = dict(model=zoo_name, parameter_names=names, gradient_matrix=X.tolist())
+    fail = lambda what, **extra: dict(signature='c08:gradient-rows', what=what, input=dict(inp, **extra))
+    try:
+        with native.time_limit(120):
+            mp = ModelPrior(build(elfi, zoo_name), list(names))
+            cd, cls = oracle_stencil(zoo_name, names, X)
+            G = np.asarray(mp.gradient_logpdf(X if k > 1 else X[:, 0]), dtype=float)
+            if G.shape != X.shape:
+                return fail('gradient_logpdf of a (%d, %d) matrix has shape %r' % (X.shape + (G.shape,))), 0
+            for r in range(len(X)):
+                g1 = np.asarray(mp.gradient_logpdf(X[r] if k > 1 else float(X[r, 0])), dtype=float).reshape(-1)
+                if not np.allclose(G[r], g1, rtol=1e-6, atol=1e-9):
+                    return fail('row %d (%s the support) x=%r: gradient in the batch %r != single-point gradient %r; classes of the rows: %s' % (
+                        r, cls[r], X[r].tolist(), G[r].tolist(), g1.tolist(), ','.join(cls)), row=r), 0
+                if cls[r] == 'inside' and not np.allclose(G[r], cd[r], rtol=1e-5, atol=1e-6):
+                    return fail('row %d inside the support x=%r: gradient_logpdf %r, central difference of the sum of the conditional log-densities %r; '
+                                'classes of the rows: %s' % (r, X[r].tolist(), G[r].tolist(), cd[r].tolist(), ','.join(cls)), row=r), 0
+                if cls[r] != 'inside' and np.any(G[r] != 0):
+                    return fail('row %d (%s the support) x=%r: gradient %r, the code states 0 where a probe is -inf' % (r, cls[r], X[r].tolist(), G[r].tolist()), row=r), 0
+            with np.errstate(all='ignore'):
+                nt = int((cls != 'inside').any() and any(c == 'inside' and np.abs(g).max() > 1e-3 for c, g in zip(cls, cd)))
+            return None, nt
+    except native.NativeTimeout:
+        TIMEOUTS.append(dict(inp))
+        return None, 0
+    except Exception as e:
+        return dict(signature='c08:exception', what='gradient_logpdf of a mixed matrix: %s: %s' % (type(e).__name__, e), input=inp), 0
+
+
+# ---------------------------------------------------------------------- long inputs (size thresholds an implementation may have)
+def int_class_constants(cls):
+    out = {}
+    for c in cls.__mro__[:-1]:
+        for k_, v in vars(c).items():
+            if isinstance(v, (int, np.integer)) and not isinstance(v, bool) and not k_.startswith('__'):
+                out.setdefault(k_, int(v))
+    return out
+
+
+def long_points(zoo_name, names, n, rng):
+    g = GRID[zoo_name]
+    X = np.column_stack([rng.uniform(min(g[p]) - 0.1, max(g[p]) + 0.1, n) for p in names])
+    G = grid_points(zoo_name, names)
+    m = min(n, len(G))
+    X[:m] = G[rng.permutation(len(G))[:m]]           # boundary / outside rows of the grid come first
+    return X
+
+
+def check_long(elfi, zoo_name, names, n, rng, patched=None):
+    """pdf / logpdf of an n-row matrix: row-wise equal to the scipy product and to the same points evaluated in small chunks"""
+    from elfi.model.extensions import ModelPrior
+    names = list(names)
+    inp = dict(model=zoo_name, parameter_names=names, long_rows=int(n), patched=patched)
+    fail = lambda what: dict(signature='c08:long-input', what=what + (' [class constants set to %r]' % (patched,) if patched else ''), input=inp)
+    try:
+        with native.time_limit(180):
+            mp = ModelPrior(build(elfi, zoo_name), list(names))
+            X = long_points(zoo_name, names, n, rng)
+            F = oracle_factors(zoo_name, names, X)
+            zero = (F == 0).any(axis=1)
+            want = np.prod(F, axis=1)
+            with np.errstate(all='ignore'):
+                wantlog = np.where(zero, -np.inf, np.log(F).sum(axis=1))
+            step = 3 if n < 50 else 4999
+            for nm, fn, w in (('pdf', mp.pdf, want), ('logpdf', mp.logpdf, wantlog)):
+                got = np.asarray(fn(X if len(names) > 1 else X[:, 0]))
+                if got.shape != (n,):
+                    return fail('%s of a %d-row matrix has shape %r' % (nm, n, got.shape))
+                if not _same(got, w):
+                    with np.errstate(all='ignore'):
+                        r = int(np.argmax(~np.isclose(got.astype(float), w, rtol=1e-9, atol=0, equal_nan=True)))
+                    return fail('%s of a %d-row matrix, row %d x=%r: %r, %s of the conditional densities %r' % (
+                        nm, n, r, X[r].tolist(), float(got[r]), 'sum of the logs' if nm == 'logpdf' else 'product', float(w[r])))
+                chunks = np.concatenate([np.atleast_1d(fn(X[i:i + step] if len(names) > 1 else X[i:i + step, 0])) for i in range(0, n, step)])
+                if not _same(got, chunks):
+                    return fail('%s of a %d-row matrix differs from the same rows evaluated in chunks of %d' % (nm, n, step))
+            return None
+    except native.NativeTimeout:
+        TIMEOUTS.append(dict(inp))
+        return None
+    except Exception as e:
+        return dict(signature='c08:exception', what='%d-row input: %s: %s' % (n, type(e).__name__, e), input=inp)
+
+
+def long_cases(elfi, tier):
+    """[(n, patched constants or None)]: 1, 7, 100000, 100001, 130000 rows and c-1, c, c+1, 2c+1 for every integer class constant c of the REAL
+    ModelPrior (read from the imported class, not hard-coded); constants too large to run are set to 5 on the class and 4, 5, 6, 11 rows are run"""
+    from elfi.model.extensions import ModelPrior
+    consts = int_class_constants(ModelPrior)
+    sizes = {1, 7, 100000, 100001, 130000}
+    big = {}
+    for k_, c in consts.items():
+        if 2 <= c <= 400000:
+            sizes |= {c - 1, c, c + 1, 2 * c + 1}
+        elif c > 400000:
+            big[k_] = c
+    out = [(n, None) for n in sorted(sizes)]
+    if big:
+        out += [(n, {k_: 5 for k_ in big}) for n in (4, 5, 6, 11)]
+    return out, consts
+
+
+def run_extra(tier, seed, elfi, failures, seen):
+    """the two families above -> (cases, nontrivial)"""
+    from elfi.model.extensions import ModelPrior
+    rng = np.random.RandomState(seed + 7)
+    cases = nontrivial = 0
+
+    def note(f):
+        if f and f['signature'] not in seen:
+            seen.add(f['signature'])
+            failures.append(f)
+    for zoo_name in GRAD_MODELS:
+        names = sorted(n for n, _, _ in ZOO[zoo_name])
+        for od in ([names, names[::-1]] if tier == 'quick' else [list(p) for p in itertools.permutations(names)][:6]):
+            X = mixed_matrix(zoo_name, od, rng)
+            cases += 1
+            f, nt = check_gradient_matrix(elfi, zoo_name, od, X)
+            nontrivial += nt
+            note(f)
+    todo, consts = long_cases(elfi, tier)
+    for zoo_name in (('hier2',) if tier == 'quick' else ('hier2', 'hier3')):
+        names = sorted(n for n, _, _ in ZOO[zoo_name])
+        for n, patched in todo:
+            old = {k_: getattr(ModelPrior, k_) for k_ in (patched or {})}
+            try:
+                for k_, v in (patched or {}).items():
+                    setattr(ModelPrior, k_, v)
+                cases += 1
+                nontrivial += 1 if n > 7 else 0
+                note(check_long(elfi, zoo_name, names if n % 2 else names[::-1], n, rng, patched))
+            finally:
+                for k_, v in old.items():
+                    setattr(ModelPrior, k_, v)
+    return cases, nontrivial, sorted(consts.items())
+
+
 def run(tier='quick', seed=0, first_failure_only=True, per_signature=True):
     elfi = native.import_elfi()
     del TIMEOUTS[:]
@@ -276,8 +467,14 @@ def run(tier='quick', seed=0, first_failure_only=True, per_signature=True):
                             continue
                         seen.add(f['signature'])
                         failures.append(f)
+    xc, xn, consts = run_extra(tier, seed, elfi, failures, seen)
+    cases += xc
+    nontrivial += xn
     return dict(name='ModelPrior-vs-scipy-products',
-                bound='%d hierarchical models <= 4 parameters; every parent-closed subset, %s; grid points inside/on/outside the support; '
+                bound='gradient_logpdf of matrices mixing rows inside / outside / on the boundary of the support (%d models, each row against the single-point '
+                      'call and an independent central difference); pdf/logpdf of 1, 7, 100000, 100001, 130000 rows and c-1, c, c+1, 2c+1 rows for the integer class '
+                      'constants of ModelPrior found in the tree (%s) against scipy and chunked evaluation; ' % (len(GRAD_MODELS), consts or 'none') +
+                      '%d hierarchical models <= 4 parameters; every parent-closed subset, %s; grid points inside/on/outside the support; '
                       'matrix/vector/scalar inputs; rvs seeds %d..%d; skipped (not parent-closed) %d; cases without a result inside the time limit (undecided): %d' % (
                           len(ZOO), 'every order' if tier == 'thorough' else 'every order up to 3 names and 6 orders per 4-subset', seed, seed + 2, skipped, len(TIMEOUTS)),
                 rule='non-trivial = request of >= 2 parameters whose grid has rows with zero density and rows with positive density',
@@ -289,6 +486,19 @@ def replay_input(inp):
     if 'model' not in inp and isinstance(inp.get('input'), dict):       # a whole failure record (bounded replay file)
         inp = inp['input']
     elfi = native.import_elfi()
+    if 'gradient_matrix' in inp:
+        f, _ = check_gradient_matrix(elfi, inp['model'], inp['parameter_names'], inp['gradient_matrix'])
+        return f is None
+    if 'long_rows' in inp:
+        from elfi.model.extensions import ModelPrior
+        old = {k_: getattr(ModelPrior, k_) for k_ in (inp.get('patched') or {})}
+        try:
+            for k_, v in (inp.get('patched') or {}).items():
+                setattr(ModelPrior, k_, v)
+            return check_long(elfi, inp['model'], inp['parameter_names'], inp['long_rows'], np.random.RandomState(7), inp.get('patched')) is None
+        finally:
+            for k_, v in old.items():
+                setattr(ModelPrior, k_, v)
     if 'x' not in inp:                       # a rejection case
         from elfi.model.extensions import ModelPrior
         try:
